@@ -2,6 +2,7 @@
    Property theorems only; closed by lemmas of proofs/IterP.v (journal iterator across chunk edges, both directions,
    direction switches), proofs/MixerP.v and proofs/OffsetP.v (cursor with filter as a list cursor, Offset, page). *)
 From LR Require Import lib.Base model.Iter model.Mixer model.Offset proofs.MixerP proofs.IterP proofs.OffsetP lib.CursorK proofs.OffsetStoreP.
+From LR Require Import gen.Consts.
 Open Scope Z_scope.
 
 (* ---- one partition, any chunk layout, any WHERE filter (no RANGE): POSITION tail OFFSET -k then a forward read
@@ -173,3 +174,7 @@ Example C16_nonvacuous :
   wf_journal (mk_journal chunks) /\
   read [SJrn 0 false chunks] (Some (mkFlt (Some [2; 3; 5]%nat) MinTimestamp MaxTimestamp)) PTail (-2) = Some [((3, 3%nat), 0%nat); ((5, 5%nat), 0%nat)].
 Proof. cbv zeta. split; [repeat constructor; cbn; unfold chunk_ok, c_cnt, MaxU64, MaxU32; cbn; lia|vm_compute; reflexivity]. Qed.
+
+(* the merge limit of the model is the limit newCursor passes to GetJournals now (coq/gen/Consts.v) *)
+Example C16_constants : merge_limit = go_cursorMaxSources.
+Proof. reflexivity. Qed.
